@@ -5,14 +5,17 @@ processes, and the stated non-triviality rule that the engine evaluates per case
 SYNCTEST_ASSUMPTION = ("engine binary is built with go1.26.8 (testing/synctest virtual time); /repo's own go.mod says go 1.22, "
                        "so production timer-channel semantics differ; the code under test only uses NewTimer/Reset/Stop/Sleep")
 COMMON = ["the harness module replaces github.com/openconfig/gnmi with /repo's working tree, built with -tags verif",
-          "rapid v1.3.0 generators; every random choice is a function of VERIF_SEED"]
+          "rapid v1.3.0 generators; every random choice is a function of VERIF_SEED",
+          "every rapid case also draws the process's glog verbosity (-v 0-3, recorded in the replay file): the code inside `if log.V(n)` blocks runs in about half of the cases (label glog-verbosity>0)"]
 
 CHECKS = {
     "C10": dict(
         engine="ctreeprop",
         technique=("deterministic gate schedules (testing/synctest + verifhook point ctree.add.upgrade) and free-running recorded histories under the race detector, "
                    "both judged by a history checker: porcupine linearizability against a node-identity (generation-aware) sequential model of the tree, "
-                   "an interval rule for Query/Walk, a structural deadlock test on goroutine dumps, and race reports classified by their pair of top gnmi frames"),
+                   "an interval rule for Query/Walk, a structural deadlock test on goroutine dumps, and race reports classified by their pair of top gnmi frames; "
+                   "every exported method of the tree (also Get, Value, Children, IsBranch, String, the Reset idiom Children+Delete) is invoked on the root, on sub-tree nodes a fresh Get returns and on retained nodes, "
+                   "concurrently with structural writers, under interval rules for Children/IsBranch/Value and a brute-force sequential-order check on small histories"),
         level_text=("Gate part: 2-4 threads whose Adds share a not-yet-existing branch; an Add is parked between dropping the node's read lock and requesting its write lock "
                     "(ancestors still read-locked) while the other threads add / look up / query beneath the same node (and delete, when the parked thread holds no lock), then released; "
                     "the schedule is part of the generated data, every step runs to quiescence, the recorded history (parked Adds span their window, everything else is atomic, "
@@ -23,6 +26,13 @@ CHECKS = {
                     "(GetLeafValue = lookup + read inside one interval; an update through a stale handle is invisible in the tree); Query/Walk obey the interval rule (report what was present for "
                     "the whole duration, nothing that was absent for the whole duration, only values written to that path before the query returned); all goroutines join; no unlisted race class. "
                     "The stress part starts with one deterministic probe (DeleteConditional over three leaves whose condition callback schedules two sequential handle updates between its inspections), judged by the same history checker. "
+                    "Accessor dimension (c10_access_test.go lists every exported method and the operation kind that invokes it): stress, burst / burst-race, pair-access and cbgate also call Children, IsBranch, Value, String, "
+                    "Get + a read-only method on the sub-tree node (GetLeafValue, GetLeaf, Query, Walk, WalkSorted, Value, Children, IsBranch, String), the same on nodes retained from an earlier lookup (possibly pruned since) and the cache's "
+                    "Reset idiom (Children of the root, then one Delete per name), on the root and below it, while other goroutines add and delete; one stress history in five lives below a single top-level element and burst / pair-access "
+                    "scenarios start from a root that is a one-element branch, empty, emptied again or a leaf, so that deletes of everything / of the last element and the next Add take the root through its zero state again and again "
+                    "(also with several deleters queued for the root lock and a refill right after the delete). Judged: a panic on any goroutine is a violation with the scenario; all goroutines join; no race report; "
+                    "Children returns only names that had a leaf below them at some instant of the call and every name that had one throughout, IsBranch / Value are consistent with some instant, String parses back into leaves that obey the "
+                    "interval rule, sorted order and (on the root) delete atomicity; on burst / pair-access / cbgate histories Children / IsBranch / Value take part in the sequential-order check (one atomic step on the root, lookup + read otherwise). "
                     "Bounded exploration of schedules: the gate part is exhaustive in nothing, the stress part sees only schedules the Go scheduler produces."),
         level_note=("trusts the ~600-line history judge (sequential model + interval rule) and porcupine v1.3.0; the whole history is judged exactly when porcupine finishes within 400 ms, otherwise "
                     "(1-3% of histories) on its three per-subtree projections, which is sound but does not demand that a delete spanning subtrees takes effect in all of them at one instant "
@@ -34,12 +44,16 @@ CHECKS = {
               "thread's Add beneath the same node completed. stress: a case is one recorded history; non-trivial = >=2 operations of different goroutines on overlapping paths "
               "(one a prefix of / matched by the other, or two Adds beneath a common first-level branch) whose invocation intervals overlapped; distinct = distinct hash of the scenario / of the recorded history. "
               "open-finding classes understood by the engine: race-leaf-update-vs-delete (D6; alias race:ctree.(*Leaf).Update|ctree.(*Tree).internalDelete) and "
-              "conditional-delete-not-atomic-vs-handle-update: while listed open, handle updates are serialised against (conditional) deletes by a harness lock and every prevented overlap is counted in excluded_known"),
+              "conditional-delete-not-atomic-vs-handle-update: while listed open, handle updates are serialised against (conditional) deletes by a harness lock and every prevented overlap is counted in excluded_known. "
+              "pair-access: a case is one scenario (root state, 2-4 racers with at least one accessor and one mutator of the root's state) executed for thousands of rounds; non-trivial = two different outcomes were observed or operations of two racers overlapped; "
+              "labels access:<method>:<root|sub-node>[:overlaps-removing-delete|:overlaps-delete-that-emptied-the-tree|:overlaps-successful-add], access:retained-node:<kind>, access:reset-idiom-delete, profile:single-subtree, state:<root state> show what was exercised"),
         assumptions=COMMON + [SYNCTEST_ASSUMPTION,
                               "stored values are non-nil ints, unique per write (nil is the tree's 'empty' sentinel); Add/Get paths contain no '*'",
                               "gate part: a step that would need a lock held by a parked thread is skipped and counted (sync.RWMutex waits are invisible to synctest.Wait); no delete is scheduled while a parked thread holds an ancestor's read lock",
                               "stress part: workloads are a function of the seed, schedules are the real scheduler's; handles are never taken on the root path and never updated when they designate a branch node; the stress part performs no operation on the root path itself (C09 covers root leaves sequentially)",
-                              "visit callbacks do not call back into the tree (documented precondition of Query/Walk)"],
+                              "visit callbacks do not call back into the tree (documented precondition of Query/Walk)",
+                              "writers (Add, Delete, DeleteConditional, WalkDeleted) are invoked on the root only: no caller in /repo writes through a node obtained with Get, and 'deletes prevent all other concurrent access' is promised for the tree they are called on; "
+                              "read-only methods are also invoked on sub-tree nodes (non-nil receivers, except Value / IsBranch / Children / String, which accept nil); the stress part reads the root (Children, IsBranch, Value, String) but still writes no value at the root path"],
         parts=[
             dict(name="gate", run="TestC10Gate", checks=dict(quick=1000, thorough=20000), shards=dict(quick=1, thorough=16)),
             dict(name="stress", run="TestC10Stress", rapid=False, race=True,
@@ -75,9 +89,9 @@ CHECKS = {
                     args=dict(quick=["-c01.maxfill=6000", "-c01.maxstorm=4"], thorough=["-c01.maxfill=12000", "-c01.maxstorm=8"])),
                dict(name="resub", run="TestC01Resub", checks=dict(quick=8, thorough=80), shards=dict(quick=3, thorough=8), timeout=dict(quick=600, thorough=1800)),
                # targets configured with several addresses of which one answers gNMI (the others refuse / stay silent / close / speak no TLS / abort the handshake), short -dial_timeout
-               dict(name="reach", run="TestC01Reach", checks=dict(quick=6, thorough=60), shards=dict(quick=3, thorough=8), timeout=dict(quick=600, thorough=1800)),
+               dict(name="reach", run="TestC01Reach", checks=dict(quick=8, thorough=60), shards=dict(quick=2, thorough=8), timeout=dict(quick=600, thorough=1800)),
                # single SubscribeResponses above 4 MiB (a few very large values, plain or atomic; thousands of updates; one value above 4 MiB) in the sync burst and after it
-               dict(name="size", run="TestC01Size", checks=dict(quick=6, thorough=60), shards=dict(quick=3, thorough=8), timeout=dict(quick=600, thorough=1800),
+               dict(name="size", run="TestC01Size", checks=dict(quick=8, thorough=60), shards=dict(quick=2, thorough=8), timeout=dict(quick=600, thorough=1800),
                     args=dict(quick=["-c01.maxcount=20000", "-c01.maxnoti=10"], thorough=["-c01.maxcount=100000", "-c01.maxnoti=24"])),
                # real time: every case holds its streams idle for 35-45 s (about a minute per case whatever the machine) - thorough only
                dict(name="quiet", run="TestC01Quiet", tiers=("thorough",), checks=dict(thorough=1), shards=dict(thorough=4), timeout=dict(thorough=1200))],
@@ -431,6 +445,9 @@ CHECKS = {
             "reproducibility is demanded when every value has a configured non-zero seed of its own or else the global seed is non-zero (fake.proto: repeatable 'if the seed is set in the corresponding Value')",
             "explicit sync values are only configured together with disable_sync (how every caller in the repository uses them), so with auto-sync every sync response is the injected marker",
             "order inside one timestamp is unconstrained (the statement only demands non-decreasing timestamps); starvation by an unbounded value with a zero timestamp delta is inherent in timestamp order and not judged",
+            "session part: 'a generation of the stream' is what client.go defines - the generator built when Client.Run starts and, for POLL subscriptions, when a Poll arrives; the clauses are applied per generation "
+            "with the configuration in force at that moment; a message a STREAM / ONCE subscription receives after its SubscriptionList is documented as an invalid event that is logged and skipped",
+            "session part: a Poll that reaches a POLL subscription in the middle of a round is undocumented: any split of what follows into the rest of the old generation and one complete new generation is accepted",
         ],
         parts=[
             dict(name="random", run="TestC20Random", checks=dict(quick=10000, thorough=50000), shards=dict(quick=1, thorough=16)),
@@ -866,8 +883,9 @@ EXT3 = {
                             "(cache.GetTarget(x).GnmiUpdate): stored in x's tree, every response built from them still names the prefix target, so a caller authorised for x and denied the named "
                             "target must not be sent them (single-target and all-targets subscriptions alike)."),
                 level_note="; scenarios with such a foreign write are judged by the trace monitors only (nothing denied is ever handed to Send; status codes), convergence is not defined for them"),
-    "C12": dict(level_text=(" Every rapid part draws the process's glog verbosity (-v 0-3) per case: the diagnostics inside `if log.V(n)` blocks format the very messages a peer sent "
-                            "(about a third of the cases run with verbosity > 0).")),
+    "C12": dict(level_text=(" Every rapid part runs with a generated glog verbosity (-v 0-3) per case: the diagnostics inside `if log.V(n)` blocks format the very messages a peer sent.")),
+    "C02": dict(level_text=(" Further: future thresholds that mean 'never reject' (time.Duration(MaxInt64), 2^62, 290 years: every sum of a threshold and a timestamp wraps); values in the deprecated "
+                            "Update.value field (bytes + encoding, val unset), in one scenario out of eight for most leaves, so that two such values meet on one leaf at one timestamp.")),
     "C14": dict(level_text=(" Part owners (free-running, real scheduler inside a synctest bubble): 2-5 targets each driven by its own goroutine running a sequential script (updates, exact/subtree/glob "
                             "deletes, Reset, Remove, Add, Sync, Connect, ConnectError, queries) plus a refresher goroutine (UpdateMetadata, UpdateSize, Metadata, all-target queries) and 0-2 bystander "
                             "targets; 40 aligned-start rounds per case. Because no operation on one target may change another, under every schedule each target holds after each of its owner's operations "
@@ -881,6 +899,28 @@ EXT3 = {
     "C08": dict(level_text=(" Third structured shape (an eighth of the cases): a POLL client that stops reading and keeps sending 1-300 poll triggers (letting a send pass now and then) against an "
                             "unchanging cache, next to other subscribers: what it is sent after its last trigger is bounded by the distinct matching leaves + the response in flight + one sync marker, "
                             "whatever the number of triggers; or it stays away and the next sleep step judges the send timeout of the POLL subscription.")),
+    "C20": dict(technique=("; scripted sessions on ONE fake Client / ONE fake Agent (subscriber messages and lifecycle calls at exact positions of the emitted stream, quiescent points of a synctest bubble "
+                           "as gates): the trace predicates per generation of the stream, and the metamorphic relation 'a generation equals what a fresh Client sends on an undisturbed subscription'"),
+                level_text=(" Part session: one fake/gnmi.Client lives through a generated script - 1-3 Client.Run calls (STREAM / ONCE / POLL SubscriptionList, or a stream that begins with something "
+                            "else: Run must refuse it), and at generated positions of the emitted stream (before anything was read, after k responses, after the sync marker, after the end, "
+                            "after Run returned) Poll messages in every mode, further SubscriptionLists, requests without a payload or with an empty oneof arm, the subscriber closing its "
+                            "sending side, Client.SetConfig with another of 1-4 generated configurations (more / fewer values, later / earlier timestamps, sync injection on / off), Run again "
+                            "after completion; every step is taken while sender and receiver of the Client are parked in the harness's Send / Recv (or wait for a Poll), so positions are exact. "
+                            "client.go defines the generations: one per Run for STREAM / ONCE (every later message is an 'invalid event' that is logged and skipped, SetConfig 'will not take effect "
+                            "until the queue is drained'), one per polled round for POLL, each of the configuration in force when it began. Every generation is judged by all clauses of the "
+                            "statement for ITS configuration (complete when the target had nothing more to send, as a prefix otherwise) and, every random source being seeded, must equal response "
+                            "for response the stream of a fresh Client on an equal configuration (82% of the cases); a seeded session run twice must give the same transcript; a Poll in the middle "
+                            "of a POLL round (undocumented) only has to admit SOME split into rest-of-old-generation + one complete new generation. Measured on 5000 cases: a Poll reaches a STREAM / "
+                            "ONCE subscription while its generation is being sent in 17%, some ignored message does in 24%; a generation is built from a configuration set by SetConfig in 19% "
+                            "(later latest timestamp with sync injected in both: 6%); two or more complete generations on one Client in 34% (by Poll 37%, by Run-again 35%); a sixth of the sessions "
+                            "is followed by 1-3 subscriptions in a row to one real Agent (stray messages behind the SubscriptionList, polled rounds), each required to equal the in-memory Client. "
+                            "Sensitivity (author's mutants, all caught within 130 cases): SetConfig resetting the running generation; receiver cancelling on io.EOF; generator or sync marker or "
+                            "latest timestamp cached across resets; a stray SubscriptionList replacing the subscription; a Poll honoured on ONCE; the Agent re-using one Client."),
+                level_note=("; session part: disable_eof, messages that are fatal for a POLL subscription (or the end of the subscriber's sending side) while the target waits for a Poll - Client.Run then never "
+                            "returns on the unchanged tree -, nil messages, SetConfig(nil) and Run on a Client that cancelled itself are not generated; goroutines of the Client that stay blocked "
+                            "after every stream was torn down are reported structurally (synctest bubble exit), never by a timeout; Agent sessions: 30 s patience or transport error = inconclusive label"),
+                rule=(" session: a case is one script on one Client (plus, for a sixth, subscriptions to one Agent); non-trivial = some generation was judged, a configuration has >=2 values, and "
+                      "an ignored message arrived while a generation was being sent, or one Client completed >=2 generations, or a configuration set by SetConfig came into force.")),
 }
 for _pid, _ex in list(EXT2.items()) + list(EXT3.items()):
     EXT.setdefault(_pid, {})
